@@ -180,3 +180,72 @@ def check_sorts(ctx, rep, funcs, rule=RULE):
                         else:
                             rep.holds(rule, f, s, 'argument {} has the declared sort {}'.format(u(a), sw), nontrivial=False)
     return n
+
+
+def check_grammar_symbol_sorts(ctx, rep, funcs, rule=RULE + '.cfg'):
+    """Variable and Terminal are str subclasses: `x in V` / `x in Sigma` compare NAMES, so a terminal called A is "in" a
+    set of variables that contains the variable A (fresh variables are chosen fresh for V only).  A symbol that may be of
+    the other class must be told apart by class (isinstance, is_variable(), is_unit_rule() ...) before such a test."""
+    from ..astutil import expr_guard_atoms
+    VAR, TER = 'gambatools.cfg.Variable', 'gambatools.cfg.Terminal'
+    n = 0
+    for f in funcs:
+        try:
+            env = ctx.env(f)
+        except Exception:
+            continue
+        fx = None
+        for s in walk_no_nested(f.node):
+            if not (isinstance(s, ast.Compare) and len(s.ops) == 1 and isinstance(s.ops[0], (ast.In, ast.NotIn))):
+                continue
+            a, b = s.left, s.comparators[0]
+            try:
+                ta, tb = env.type_of(a), env.type_of(b)
+            except Exception:
+                continue
+            la = {m[1] for m in members(ta) if m[0] == 'cls'}
+            if not la or not la <= {VAR, TER}:
+                continue
+            eb = {m[1] for m in members(elem_type(tb)) if m[0] == 'cls'} if tb is not None and all(m[0] in ('set', 'frozenset', 'list') for m in members(tb)) else set()
+            if not eb and isinstance(b, ast.Name):
+                # an untyped local set: its element class is what the function adds to it
+                added = set()
+                unknown_add = False
+                for c in walk_no_nested(f.node):
+                    if isinstance(c, ast.Call) and isinstance(c.func, ast.Attribute) and c.func.attr == 'add' and isinstance(c.func.value, ast.Name) and c.func.value.id == b.id and c.args:
+                        try:
+                            tt = env.type_of(c.args[0])
+                        except Exception:
+                            tt = None
+                        cl = {m[1] for m in members(tt) if m[0] == 'cls'}
+                        if len(cl) == 1 and len(members(tt)) == 1:
+                            added |= cl
+                        else:
+                            unknown_add = True
+                if added and not unknown_add:
+                    eb = added
+            if len(eb) != 1 or not eb <= {VAR, TER}:
+                continue
+            want = next(iter(eb))
+            if la == {want}:
+                n += 1
+                rep.holds(rule, f, s, 'membership within one class of grammar symbols', nontrivial=False)
+                continue
+            # the left operand may be of the other class: is its class established on every path to this test?
+            if fx is None:
+                fx = ctx.facts(f)
+            nid = fx.stmt_of_expr(s)
+            atoms = (list(fx.guard_atoms(nid)) if nid is not None else []) + expr_guard_atoms(f.node, s)
+            txt = u(a)
+            cls_name = 'Variable' if want == VAR else 'Terminal'
+            other_name = 'Terminal' if want == VAR else 'Variable'
+            established = any((at[0] == 'isinstance' and at[3] is True and at[1] == txt and cls_name in str(at[2])) for at in atoms) \
+                or (la == {VAR, TER} and any((at[0] == 'isinstance' and at[3] is False and at[1] == txt and other_name in str(at[2])) for at in atoms))
+            n += 1
+            if established:
+                rep.holds(rule, f, s, 'the class of {} is established before the membership test'.format(txt))
+            else:
+                other = 'Terminal' if want == VAR else 'Variable'
+                rep.violates(rule, f, s, '`{}`: {} may be a {} here, but the test compares names with a set of {}s -- a {} whose name equals that of a {} (e.g. the terminal A and a fresh variable A, chosen fresh for V only) passes the test, so it is treated as a {}'.format(
+                    u(s), txt, other, cls_name, other.lower(), cls_name.lower(), cls_name.lower()))
+    return n
